@@ -194,8 +194,12 @@ def check_case(rec, spec, p_idx, kind, tol_idx, out_mode, out_idx,
                     spec_u = dict(spec)
                     spec_u['sheets'] = {n: dict(c) for n, c in
                                         spec['sheets'].items()}
+                    body = spec['sheets'][usheet][ucoord][1:]
+                    # an unknown function, or a reference to a sheet that
+                    # does not exist (fails while the cell is loaded)
                     spec_u['sheets'][usheet][ucoord] = \
-                        '=NOSUCHFUNCTION(' + spec['sheets'][usheet][ucoord][1:] + ')'
+                        f'=NOSUCHFUNCTION({body})' if unknown_idx % 2 else \
+                        f'=NoSuchSheet!A1+({body})'
                     path = os.path.join(tmp, 'unknown.xlsx')
                     write_xlsx_with_results(
                         wbspec.build_spec(spec_u),
@@ -208,6 +212,18 @@ def check_case(rec, spec, p_idx, kind, tol_idx, out_mode, out_idx,
                         fail('unevaluable-cell-not-reported',
                              f'{U} holds an unknown function but the report '
                              f'has {sorted(report)}: {str(report)[:300]}')
+                    # ... and nothing but that cell and its dependants
+                    import re
+                    blamed = set(re.findall(
+                        r"\('([^']+![A-Z]+[0-9]+)'", listed))
+                    extra = sorted(a for a in blamed
+                                   if a != U and a not in desc_u and
+                                   a.rsplit('!', 1)[0] in spec['sheets'])
+                    if extra:
+                        fail('evaluable-cell-reported-as-exception',
+                             f'{U} can not be evaluated; the report also '
+                             f'lists {extra}, which do not depend on it: '
+                             f'{str(report)[:300]}')
                     if P not in report.get('mismatch', {}):
                         fail('unevaluable-cell-hides-mismatch',
                              f'with an unknown function in {U}, the '
